@@ -101,8 +101,10 @@ class LogicalBuffer<BufferType, SizeType, IsUnbounded_,
   constexpr ValueType* begin() { return &data_[0]; }
   constexpr const ValueType* begin() const { return &data_[0]; }
 
-  constexpr ValueType* end() { return &data_[size_]; }
-  constexpr const ValueType* end() const { return &data_[size_]; }
+  // The end is formed from begin(): subscripting a full std::array with its
+  // size is outside the precondition of std::array::operator[].
+  constexpr ValueType* end() { return begin() + size_; }
+  constexpr const ValueType* end() const { return begin() + size_; }
 
  private:
   BufferType& data_;
